@@ -868,11 +868,40 @@ class C15(Property):
     id = "C15"
     title = "built-in validators decide their documented predicate and explain failures"
     proof_module = "Proofs.C15"
-    theorems = []
+    theorems = ["Flatland.C15.Proofs." + t for t in (
+        "decides_partial", "C15_full_fails", "setWith_nontext_key_raises", "setWith_bad_pairs_raises",
+        "value_preserved", "messages", "true_verdict_records_nothing",
+        "luhn_pairs_eq_digits", "luhn10Check_eq", "notdup_first_kept",
+        "decides_present", "decides_isTrue", "decides_isFalse", "decides_converted", "decides_valueIn",
+        "decides_shorterThan", "decides_longerThan", "decides_lengthBetween",
+        "decides_valueLessThan", "decides_valueAtMost", "decides_valueGreaterThan", "decides_valueAtLeast",
+        "decides_valueBetween", "decides_mapEqual", "decides_notDuplicated",
+        "decides_hasAtLeast", "decides_hasAtMost", "decides_hasBetween",
+        "decides_setWithKnownFields", "decides_setWithAllFields", "decides_luhn10")]
     generated_obligations = []
     quick_n = 4000
     thorough_n = 120000
-    rule = ""
+    trusted_base = [
+        "the element view (value, u, label, siblings, raw keys, resolved field paths) is read off the real element by the harness and re-asserted on every run",
+        "urllib.parse.urlparse/urlunparse and the idna codec are opaque: their results on the element's value are inputs of the model (IsEmail/URL* are covered by correspondence + oracle only)",
+        "message templates come from the regenerated table Flatland/Generated/C16Catalogues.lean; expansion is the C16 model",
+        "Python comparison/equality of natives modelled for None/str/int/bool only (no float, Decimal, date)",
+        "str.isspace code points and IsEmail.domain_pattern are re-implemented by hand (pinned by the extractor)",
+    ]
+    assumptions = [
+        "elements are String/Integer/Boolean scalars, List/Array of them, Dict of them; validator parameters are ints/strs/bools",
+        "MapEqual field paths are plain child names resolved by the harness (path evaluation is C14's subject)",
+        "network validators on non-text values are not compared with the model",
+    ]
+    level_text = "proof"
+    level_note = ("partial: the per-class decision theorems, Luhn equivalence, first-occurrence, value preservation and message theorems are proved for all "
+                  "inputs on model A; IsEmail/URLValidator/HTTPURLValidator/URLCanonicalizer are modelled for control flow only (urlparse/idna opaque) and "
+                  "rest on correspondence; the full statement C15_Full is refuted by D-C15-7 (MapEqual default transform), with D-C15-5/6 as further witnesses")
+    technique = "Lean 4 model + theorems (refinement to the documented predicate per class) + differential correspondence + Python oracle"
+    rule = ("every validator class x random parameterisations x String/Integer/Boolean elements set with None / adapted / unadapted text / blank / never set, "
+            "List/Array with 0-5 members, members with duplicates at random positions, Dicts set with dict / pairs / flat / non-iterable / malformed raw values, "
+            "e-mail and URL shape pools plus random assembly; 6% hostile stream (validator on an element kind it is not documented for, missing field path, "
+            "negative counts, None bounds); 20% of cases start with pre-existing errors (incl. the very message).  non-trivial = the validator returned a verdict")
 
     def corpus(self):
         out = []
